@@ -35,6 +35,11 @@ def _history_cases(draw, tier):
     d = draw(gen.spline(max_p=5 if big else 4, max_extra=4 if big else 3, affine_range="maybe", normalize="maybe",
                         vol_max_p=3, vol_max_extra=2))
     pdim = len(d["degree"])
+    # exact power-of-two scaling of the control net: the property quantifies over all control nets, also far from unit size
+    sc = draw(st.sampled_from([0, 0, 0, 14, 17, -10]))
+    if sc:
+        d["P"] = [[c * 2.0 ** sc for c in p] for p in d["P"]]
+        d["scale_exp"] = sc
     nsteps = draw(st.integers(2, 10 if big else 6))
     if d["kind"] == "volume":
         nsteps = min(nsteps, 4)
@@ -79,6 +84,10 @@ def check_history(case, ctx):
             for k, desc in enumerate(st_["dirs"]):
                 if desc is None:
                     continue
+                if desc[0] == "near":
+                    # removing one of two knots 4e-6 apart is exact only up to the conditioning of that pair; the
+                    # near-knot class is exercised for insertion (C04) and splitting (C07), not for removal
+                    desc = ["in"] + list(desc[1:])
                 pick = pick_insert(degs[k], kvs[k], szs[k], desc, others=[o for j, o in enumerate(kvs) if j != k])
                 if pick is None:
                     continue
@@ -143,6 +152,7 @@ def check_history(case, ctx):
     ctx.nt(removed_any and pdim >= 2, "surface-or-volume")
     ctx.nt(full_restore, "full-restore")
     ctx.label("kind:" + d["kind"])
+    ctx.label("scaled-control-net", bool(d.get("scale_exp")))
     ctx.label("removals>=2", nrem >= 2)
     ctx.label("no-removal", not removed_any)
 
@@ -207,7 +217,8 @@ def _helper_cases(draw, tier):
 def check_helper(case, ctx):
     d = case["defn"]
     p, kv, n = d["degree"][0], list(d["kv"][0]), d["size"][0]
-    pick = pick_insert(p, kv, n, case["ins"])
+    ins = (["in"] + list(case["ins"][1:])) if case["ins"][0] == "near" else case["ins"]
+    pick = pick_insert(p, kv, n, ins)
     if pick is None:
         ctx.label("no-op-case")
         return
